@@ -9,6 +9,7 @@ import PM.Content
 import PM.Replace
 import Proofs.Toks
 import Proofs.ReplaceToks
+import Proofs.FlatInsertCore
 namespace PM
 
 /-- validity of slice content whose left side is open `a` levels (right side closed) -/
@@ -822,19 +823,10 @@ theorem flatInsert_valid (S : Schema) (ins level c : List Node) (p : TypeId) (d 
     (hl : S.checkKids level = true) (hi : S.checkKids ins = true)
     (h : flatInsert S ins (some p) level d idx = .ok (some c)) :
     S.checkKids c = true := by
-  unfold flatInsert at h
-  simp only at h
-  split at h
-  · simp at h
-  · split at h
-    · rename_i l r hl' hr'
-      simp at h; subst h
-      exact fappend_checkKids S _ _
-        (fappend_checkKids S _ _ (fcut_checkKids_flat S _ _ _ _ hl (depthAt_zero _) hd hl') hi)
-        (fcut_checkKids_flat S _ _ _ _ hl hd (depthAt_fsize _) hr')
-    · simp at h
-    · simp at h
-  · simp at h
+  obtain ⟨l, r, hl', hr', rfl⟩ := flatInsert_ok_cuts h
+  exact fappend_checkKids S _ _
+    (fappend_checkKids S _ _ (fcut_checkKids_flat S _ _ _ _ hl (depthAt_zero _) hd hl') hi)
+    (fcut_checkKids_flat S _ _ _ _ hl hd (depthAt_fsize _) hr')
 
 /-! ### a slice cut from a valid document -/
 
